@@ -30,7 +30,7 @@ def parse_case(line):
     res = None if m.group(3) == 'None' else ([hexf(t) for t in m.group(4).split(';')] if m.group(4).strip() else [])
     return op, args, res
 
-def run_ranges(prop, ranges, n, seed, per_shard=300):
+def run_ranges(prop, ranges, n, seed, per_shard=300, oracle=None):
     """ranges: list of (lo, hi). returns dict for bin/check"""
     names = opnames()
     lines = []
@@ -55,6 +55,15 @@ def run_ranges(prop, ranges, n, seed, per_shard=300):
                              'function': names.get(op, ('?',))[0], 'args': args, 'implementation': res,
                              'model': ' '.join(mo.split())[:1500], 'verdict': VERDICT_TEXT.get(code, code),
                              'case_term': l})
+    oracle_checked = 0
+    if oracle:
+        for l in lines:
+            c = parse_case(l)
+            f = oracle(c)
+            oracle_checked += 1
+            if f:
+                f['function'] = names.get(c[0], ('?',))[0]
+                failures.append(f)
     distinct = len(set(lines))
     samples = []
     for l in lines[:3] + lines[len(lines) // 2: len(lines) // 2 + 2]:
@@ -65,7 +74,7 @@ def run_ranges(prop, ranges, n, seed, per_shard=300):
                     'every 5th round special values: +-0, subnormal, 1e300, 1e21; indices in and out of range; lists of length 0..9); '
                     'model evaluated on the float reading inside Coq (vm_compute); verdict 0 = bit-exact, 1 = within 1e-9 relative, >=2 = failure. '
                     'distinct = distinct (function, arguments) pairs',
-            'extra': {'bit_exact': len(lines) - inexact - len(failures), 'within_tolerance_only': inexact,
+            'extra': {'oracle_checked': oracle_checked, 'bit_exact': len(lines) - inexact - len(failures), 'within_tolerance_only': inexact,
                       'functions_covered': len(ops_seen), 'cases_per_function_min': min(ops_seen.values()) if ops_seen else 0}}
 
 def replay(prop, path):
